@@ -128,6 +128,10 @@ type Space struct {
 	Depth  int
 	Touch2 bool // include several-versions-in-one-commit transitions
 
+	// Version numbering of all elements (histsim.Config): OSM versions need not
+	// start at 1 or be sequential.
+	FirstVersion, VersionStep int
+
 	// ExtraDepth: the withheld-history and child-filter variants (and the
 	// ignore-inconsistency variants on consistent histories) are evaluated at
 	// every state of depth <= ExtraDepth; all other variants at every state.
@@ -144,10 +148,12 @@ type SpaceID struct {
 	Depth  int    `json:"depth"`
 	Extra  int    `json:"extra_depth"`
 	Touch2 bool   `json:"touch2"`
+	FirstV int    `json:"first_version"`
+	StepV  int    `json:"version_step"`
 }
 
 func (s *Space) id() SpaceID {
-	id := SpaceID{Family: s.Fam.Name, Regime: int(s.Regime), DeltaS: int64(s.Delta / time.Second), Skews: s.Skews, Depth: s.Depth, Extra: s.ExtraDepth, Touch2: s.Touch2}
+	id := SpaceID{Family: s.Fam.Name, Regime: int(s.Regime), DeltaS: int64(s.Delta / time.Second), Skews: s.Skews, Depth: s.Depth, Extra: s.ExtraDepth, Touch2: s.Touch2, FirstV: s.FirstVersion, StepV: s.VersionStep}
 	for _, g := range s.Gaps {
 		id.GapsMS = append(id.GapsMS, int64(g/time.Millisecond))
 	}
@@ -156,7 +162,7 @@ func (s *Space) id() SpaceID {
 
 func spaceFromID(id SpaceID) *Space {
 	s := &Space{Fam: family(id.Family), Regime: histsim.Regime(id.Regime), Delta: time.Duration(id.DeltaS) * time.Second,
-		Skews: id.Skews, Depth: id.Depth, ExtraDepth: id.Extra, Touch2: id.Touch2}
+		Skews: id.Skews, Depth: id.Depth, ExtraDepth: id.Extra, Touch2: id.Touch2, FirstVersion: id.FirstV, VersionStep: id.StepV}
 	for _, g := range id.GapsMS {
 		s.Gaps = append(s.Gaps, time.Duration(g)*time.Millisecond)
 	}
@@ -186,8 +192,11 @@ type status struct {
 	faults   int     // fault transitions so far
 	grpPar   bool    // the current same-instant group contains a parent version
 	grpMulti bool    // ... contains an upload writing more than one element
-	grpDel   [4]bool // ... contains a delete of child x
+	sinceDel [4]time.Duration // for a deleted child: time since its delete
 }
+
+// thrMax is the largest grouping threshold any variant uses.
+const thrMax = 30 * time.Minute
 
 func (s *Space) initial() (histsim.Upload, status) {
 	f := &s.Fam
@@ -234,13 +243,20 @@ func (s *Space) upload(o Op) histsim.Upload {
 // child of the current list, touch+edit touches a child of the new list.
 // Pre-commit regime (the documented domain restriction: ground truth must be
 // observable from one-second timestamps): an upload may share the instant of
-// the previous one only if it writes a single element with zero skew, no
+// the previous one only if it writes a single element with zero skew and no
 // upload of the group wrote a parent version yet (child-then-parent order
-// only), and a parent edit does not join a group that deleted one of its
-// children.
+// only); a new parent version does not reference a child whose delete is at
+// most one threshold old (inside the grouping window a delete is, by design of
+// the heuristic, indistinguishable from a delete that belongs to the parent's
+// own upload).
 func (s *Space) next(st status, o Op) (status, bool) {
 	f := &s.Fam
 	n := st
+	for x := range f.Children {
+		if !st.vis[x] && n.sinceDel[x] < 1000*time.Hour {
+			n.sinceDel[x] += s.Gaps[o.Gap]
+		}
+	}
 	switch o.Kind {
 	case opTouch, opTouch2:
 		n.vis[o.X] = true
@@ -297,20 +313,20 @@ func (s *Space) next(st status, o Op) (status, bool) {
 		if !single || st.grpPar || st.grpMulti {
 			return st, false
 		}
-		if o.Kind == opEdit {
-			for _, c := range f.Menu[o.L] {
-				if st.grpDel[c] {
-					return st, false
-				}
-			}
-		}
 	} else {
-		n.grpPar, n.grpMulti, n.grpDel = false, false, [4]bool{}
+		n.grpPar, n.grpMulti = false, false
 	}
 	n.grpPar = n.grpPar || parent
 	n.grpMulti = n.grpMulti || !single
 	if o.Kind == opDelete || o.Kind == opDeleteEdit {
-		n.grpDel[o.X] = true
+		n.sinceDel[o.X] = 0
+	}
+	if s.Regime == histsim.PreCommit && parent && n.pvis {
+		for _, c := range f.Menu[n.list] {
+			if !n.vis[c] && n.sinceDel[c] <= thrMax {
+				return st, false
+			}
+		}
 	}
 	return n, true
 }
